@@ -62,6 +62,7 @@ StepOf(e) == CASE e.ev = "MRecvStartEngine" -> MRecvStartEngine
                [] e.ev = "RcTeardown" -> RcTeardown
                [] e.ev = "RemoteJoins" -> RemoteJoins(e.a)
                [] e.ev = "RemoteLeaves" -> RemoteLeaves(e.a)
+               [] e.ev = "NodeProcess" -> NodeProcess(e.a, e.b)
                [] OTHER -> FALSE
 
 L1Clauses == {"StartedOnlyWhenAll", "StopAtMostOnce", "StoppedOnlyWhenAll", "ExternalUntouched", "NoStall", "FaultReported",
@@ -89,7 +90,7 @@ StartTrace ==
                           /\ nd' = [n \in NodeIds(tr.scn) |-> InitNd]
                           /\ ho' = [h \in Hosts(tr.scn) |-> 0]
                           /\ env'.up \subseteq RemoteTargets(tr.scn)
-                          /\ env' = [up |-> env'.up, left |-> {}, fault |-> "none", stopSent |-> FALSE, resets |-> 0, torn |-> FALSE]
+                          /\ env' = [up |-> env'.up, left |-> {}, fault |-> "none", stopSent |-> FALSE, resets |-> 0, torn |-> FALSE, procs |-> 0]
                           /\ tr.init.other = 0
             IN IF initOk THEN TRUE ELSE PrintT(<<"V", tr.id, 0, "L2", {}>>)
     /\ tid' = tid + 1 /\ l' = 1 /\ nev' = nev
